@@ -272,6 +272,8 @@ def targets(tier='quick'):
                         c01.scen_init(False, dg), post_rot, RI, PROP, replay=lambda ob: {'func': 'basis_covariance', 'inputs': {}}))
     T.append(PtRotationTarget('simple'))
     T.append(PtRotationTarget('file'))
+    from . import wire
+    T.append(wire.OperatorsTarget(PROP))      # what left_right_super & co. mean (the rotation contracts use them)
     return T
 
 
